@@ -1,50 +1,60 @@
 #!/bin/bash
 # check.sh <ID> <quick|thorough>   — rebuilds the harness against the repository's working tree and runs one check.
 # check.sh build                  — build only (setup).
-# The repository is /repo; for experiments on a scratch worktree set VERIF_REPO=<dir> (the harness and the
-# gogreement binary are then built from that tree into a private bin directory).
+# check.sh replay <file>          — print a recorded counterexample (program, expected, observed).
+#
+# The repository is /repo. For experiments on a scratch worktree set VERIF_REPO=<dir>: the harness and the
+# gogreement binary are then built from that tree into a private bin directory, and evidence / replays are
+# written there too, never over the evidence of /repo. The script works from wherever it lives (a snapshot of
+# /verif runs its own copy of the harness and writes into the snapshot).
 set -u
-cd /verif/mc || exit 2
+ROOT=$(dirname "$(realpath "$0")")
+export VERIF_ROOT=$ROOT
+cd "$ROOT/mc" || exit 2
 export GOFLAGS=-mod=mod GOPROXY=off
 unset GOGREEMENT_SCAN_TESTS GOGREEMENT_EXCLUDE_PATHS GOGREEMENT_EXCLUDE_CHECKS GOGREEMENT_ENV_ONLY
 REPO=${VERIF_REPO:-/repo}
-BIN=/verif/bin
+BIN=$ROOT/bin
 MODARGS=()
-OVERLAY=/verif/hooks/overlay.json
 if [ "$REPO" != /repo ]; then
-  BIN=/verif/bin/alt-$(echo "$REPO" | md5sum | cut -c1-10)
+  BIN=$ROOT/bin/alt-$(echo "$REPO" | md5sum | cut -c1-10)
   mkdir -p "$BIN"
   sed "s#=> /repo#=> $REPO#" go.mod > "$BIN/go.mod"
   cp go.sum "$BIN/go.sum"
-  sed "s#/repo/#$REPO/#" /verif/hooks/overlay.json > "$BIN/overlay.json"
   MODARGS=(-modfile="$BIN/go.mod")
-  OVERLAY="$BIN/overlay.json"
+  export VERIF_OUT="$BIN"
+elif [ "$ROOT" != /verif ]; then
+  export VERIF_OUT="$ROOT"
 fi
 # development aid: MC_SKIP="c15 c16" leaves out internal/checks/c15*.go, c16*.go (files another session is editing)
+SKIP=""
 if [ -n "${MC_SKIP:-}" ]; then
-  BIN=/verif/bin/skip-$(echo "$MC_SKIP$REPO" | md5sum | cut -c1-8); mkdir -p "$BIN"
-  python3 - "$OVERLAY" "$BIN/overlay.json" $MC_SKIP <<'PY'
-import json,sys,glob
-o=json.load(open(sys.argv[1]))
-for k in sys.argv[3:]:
-    for f in glob.glob('/verif/mc/internal/checks/%s*.go'%k):
-        o["Replace"][f]=""
-json.dump(o,open(sys.argv[2],'w'))
-PY
-  OVERLAY="$BIN/overlay.json"
+  BIN=$BIN/skip-$(echo "$MC_SKIP" | md5sum | cut -c1-8)
+  for k in $MC_SKIP; do for f in "$ROOT"/mc/internal/checks/${k}*.go; do [ -e "$f" ] && SKIP="$SKIP, \"$f\": \"\""; done; done
 fi
+mkdir -p "$BIN" "$ROOT/evidence"
+# the hook: one add-only file under build tag "verif", injected as an overlay (nothing is written into the repository)
+OVERLAY=$BIN/overlay.json
+echo "{\"Replace\": {\"$REPO/src/analyzer/zz_verif_reset.go\": \"$ROOT/hooks/analyzer/zz_verif_reset.go\"$SKIP}}" > "$OVERLAY"
 export VERIF_REPO=$REPO VERIF_BIN=$BIN
-mkdir -p "$BIN" /verif/evidence
 build_mc() {
   go build "${MODARGS[@]}" -tags verif -overlay "$OVERLAY" -o "$BIN/mc" ./cmd/mc || { echo "HARNESS-ERROR: harness build failed"; exit 2; }
 }
 build_tool() {
   (cd "$REPO" && go build -o "$BIN/gogreement" ./cmd/gogreement) || { echo "HARNESS-ERROR: gogreement build failed"; exit 2; }
 }
-if [ "${1:-}" = build ]; then
-  build_mc
-  build_tool
-  exit 0
-fi
+case "${1:-}" in
+  build)
+    build_mc; build_tool; exit 0;;
+  replay)
+    python3 - "$2" <<'PY'
+import json,sys
+j=json.load(open(sys.argv[1]))
+print("property:", j.get("property")); print("signature:", j.get("sig")); print("summary:", j.get("summary")); print()
+for k,v in (j.get("detail") or {}).items():
+    print("---", k); print(v if isinstance(v,str) else json.dumps(v,indent=1)); print()
+PY
+    exit 0;;
+esac
 build_mc
 exec "$BIN/mc" "$@"
